@@ -14,10 +14,15 @@ RUN=$(grep -oE '^func (Test[A-Za-z0-9_]+)' "$DEMO" | head -1 | awk '{print $2}')
 cp "$DEMO" "$WT/$REL"
 cd "$WT"
 echo "== demo WITHOUT change ($RUN in ./$PKG)"; go test -vet=off -count=1 -run "^$RUN\$" "./$PKG/" >/tmp/cm_$$.a 2>&1; A=$?; tail -2 /tmp/cm_$$.a | cut -c1-200
-git apply "$D/patch.diff" || { echo "PATCH DOES NOT APPLY"; exit 2; }
-PKGS=$(git diff --name-only | xargs -n1 dirname | sort -u | sed 's#^#./#; s#$#/...#' | tr '\n' ' ')
+git apply --check "$D/patch.diff" || { echo "PATCH DOES NOT APPLY"; exit 2; }
+PKGS=$(git apply --numstat "$D/patch.diff" | awk '{print $3}' | xargs -n1 dirname | sort -u | sed 's#^#./#; s#$#/...#' | tr '\n' ' ')
+# baseline: tests of the touched packages that already fail on the unchanged tree in this sandbox (expired certificates, no DNS)
+mv "$WT/$REL" /tmp/cm_$$.demo; go test -vet=off -count=1 $PKGS 2>&1 | grep -E '^\s*--- FAIL' | sed 's/ (.*//' | sort -u >/tmp/cm_$$.base
+git apply "$D/patch.diff"
 echo "== build with change"; go build ./... ; B=$?
-echo "== existing tests of touched packages with change: $PKGS"; mv "$WT/$REL" /tmp/cm_$$.demo; go test -vet=off -count=1 $PKGS >/tmp/cm_$$.t 2>&1; T=$?; tail -3 /tmp/cm_$$.t | cut -c1-200; mv /tmp/cm_$$.demo "$WT/$REL"
+echo "== existing tests of touched packages with change: $PKGS"; go test -vet=off -count=1 $PKGS 2>&1 | grep -E '^\s*--- FAIL' | sed 's/ (.*//' | sort -u >/tmp/cm_$$.t
+NEWFAIL=$(comm -13 /tmp/cm_$$.base /tmp/cm_$$.t | wc -l); echo "failing at baseline: $(wc -l </tmp/cm_$$.base), newly failing with change: $NEWFAIL"; comm -13 /tmp/cm_$$.base /tmp/cm_$$.t | head -5
+T=$NEWFAIL; mv /tmp/cm_$$.demo "$WT/$REL"
 echo "== demo WITH change"; go test -vet=off -count=1 -run "^$RUN\$" "./$PKG/" >/tmp/cm_$$.c 2>&1; C=$?; tail -3 /tmp/cm_$$.c | cut -c1-200
 echo "RESULT demo_without=$A build=$B existing_tests=$T demo_with=$C"
 if [ $A -eq 0 ] && [ $B -eq 0 ] && [ $T -eq 0 ] && [ $C -ne 0 ]; then
